@@ -1239,3 +1239,309 @@ Proof.
   - intros l0 S0. apply last_spec; auto.
   - intros l0 x S0. apply (prev_is_greatest_smaller l0 x S0).
 Qed.
+
+(* ================= the invariant in the words of the property ================= *)
+Lemma members_words proj (lights : dict light) td :
+  NoDup (dict_keys lights) -> members_inv proj lights td ->
+  (forall n v, dict_get n lights = Some v -> forall g, listed td g n <-> g = proj v) /\
+  (forall g l, dict_get g td = Some l ->
+     sorted l /\ l <> [] /\
+     forall n, In n l <-> exists v, dict_get n lights = Some v /\ proj v = g) /\
+  sorted (sl_of_list (dict_keys td)) /\
+  (forall g, In g (sl_of_list (dict_keys td)) <-> exists n, listed td g n) /\
+  (forall g, In g (sl_of_list (dict_keys td)) <-> dict_get g td <> None).
+Proof.
+  intros N [K L X]. split; [|split; [|split; [|split]]].
+  - intros n v G g. apply (dict_get_In _ _ _ N) in G. rewrite X. split.
+    + intros [w [H1 H2]]. apply (dict_get_In _ _ _ N) in H1, G. congruence.
+    + intros ->. eauto.
+  - intros g l G. apply (dict_get_In _ _ _ K) in G. destruct (L _ _ G) as [S NE].
+    split; auto. split; auto. intros n. split.
+    + intros H. destruct (proj1 (X g n)) as [v [H1 H2]]; [exists l; auto|].
+      exists v. split; auto. now apply (dict_get_In _ _ _ N).
+    + intros [v [H1 H2]]. apply (dict_get_In _ _ _ N) in H1.
+      destruct (proj2 (X g n)) as [l' [H3 H4]]; [eauto|]. now rewrite (td_wf_unique _ _ _ _ K G H3).
+  - now apply py_sorted_sorted.
+  - intros g. unfold sl_of_list. rewrite py_sorted_In. split.
+    + intros H. apply keys_in in H as [l H]. destruct (L _ _ H) as [_ NE].
+      destruct l as [|n l']; [contradiction|]. exists n, (n :: l'). split; auto. now left.
+    + intros [n [l [H _]]]. eapply in_keys; eauto.
+  - intros g. unfold sl_of_list. rewrite py_sorted_In. split.
+    + intros H G. apply dict_get_None in G. contradiction.
+    + intros H. destruct (dict_get g td) as [l|] eqn:G; [|contradiction].
+      apply dict_get_Some_In in G. eapply in_keys; eauto.
+Qed.
+
+Theorem directory_consistent : forall d, dir_inv d ->
+  (* the list of light names is sorted, duplicate-free and names exactly the known lights *)
+  sorted (get_light_names d) /\ NoDup (get_light_names d) /\
+  (forall n, In n (get_light_names d) <-> get_light d n <> None) /\
+  get_light_count d = Z.of_nat (length (get_light_names d)) /\
+  (* every known light is listed under exactly the one group and the one location it last reported *)
+  (forall n v, get_light d n = Some v ->
+     (forall g, listed (d_groups d) g n <-> g = l_group v) /\
+     (forall g, listed (d_locs d) g n <-> g = l_loc v)) /\
+  (* member lists are sorted, duplicate-free, never empty, and hold exactly those lights *)
+  (forall g l, get_group_lights d g = Some l ->
+     sorted l /\ l <> [] /\ forall n, In n l <-> exists v, get_light d n = Some v /\ l_group v = g) /\
+  (forall g l, get_location_lights d g = Some l ->
+     sorted l /\ l <> [] /\ forall n, In n l <-> exists v, get_light d n = Some v /\ l_loc v = g) /\
+  (* the group and location name lists name exactly the non-empty ones *)
+  sorted (get_group_names d) /\
+  (forall g, In g (get_group_names d) <-> exists n, listed (d_groups d) g n) /\
+  (forall g, In g (get_group_names d) <-> get_group_lights d g <> None) /\
+  sorted (get_location_names d) /\
+  (forall g, In g (get_location_names d) <-> exists n, listed (d_locs d) g n) /\
+  (forall g, In g (get_location_names d) <-> get_location_lights d g <> None).
+Proof.
+  intros d [A B C D E].
+  destruct (members_words l_group _ _ B D) as [G1 [G2 [G3 [G4 G5]]]].
+  destruct (members_words l_loc _ _ B E) as [L1 [L2 [L3 [L4 L5]]]].
+  unfold get_light_names, get_light, get_light_count, get_group_lights, get_location_lights,
+    get_group_names, get_location_names.
+  split; auto. split; [now apply sorted_NoDup|]. split.
+  { intros n. rewrite C. split.
+    - intros H G. apply dict_get_None in G. contradiction.
+    - intros H. destruct (dict_get n (d_lights d)) as [v|] eqn:G; [|contradiction].
+      apply dict_get_Some_In in G. eapply in_keys; eauto. }
+  split.
+  { f_equal. rewrite <- (map_length fst (d_lights d)). apply Permutation_length.
+    apply NoDup_Permutation; auto; [now apply sorted_NoDup|]. intros n. symmetry. apply C. }
+  split; [intros n v H; split; [now apply G1|now apply L1]|].
+  repeat (split; auto).
+Qed.
+
+(* ================= vm_discover ================= *)
+Lemma names_by_oper_sorted d op : dir_inv d -> sorted (names_by_oper d op).
+Proof.
+  intros I. destruct (directory_consistent d I) as [A [_ [_ [_ [_ [_ [_ [B [_ [_ [C _]]]]]]]]]]].
+  destruct op; auto.
+Qed.
+
+Definition nearest (fwd : bool) (l : list string) (x : string) (r : option string) : Prop :=
+  if fwd then least_above l x r else greatest_below l x r.
+
+Lemma steps_nearest fwd l x : sorted l -> nearest fwd l x (steps fwd l x).
+Proof.
+  intros S. destruct fwd; cbn [nearest steps];
+    [now apply next_is_least_greater|now apply prev_is_greatest_smaller].
+Qed.
+
+Definition to_result (r : option string) : dresult :=
+  match r with Some n => DName n | None => DNull end.
+
+Lemma or_null_nonempty l r : ~ In EmptyString l -> (forall y, r = Some y -> In y l) -> or_null r = to_result r.
+Proof.
+  intros NE H. destruct r as [y|]; cbn; auto. destruct (String.eqb y "") eqn:E; auto.
+  apply String.eqb_eq in E. subst. exfalso. apply NE. now apply H.
+Qed.
+
+Lemma nearest_In fwd l x y : nearest fwd l x (Some y) -> In y l.
+Proof. destruct fwd; cbn; tauto. Qed.
+
+(* Stepping over lights, groups or locations from ANY name (present or not) gives the
+   nearest remaining one, NULL when there is none; never a fault. *)
+Theorem vm_dnext_nearest : forall d op fwd cur, dir_inv d ->
+  ~ In EmptyString (names_by_oper d op) ->
+  exists r, vm_dnext d op fwd cur = to_result r /\ nearest fwd (names_by_oper d op) cur r.
+Proof.
+  intros d op fwd cur I NE. exists (steps fwd (names_by_oper d op) cur).
+  pose proof (steps_nearest fwd _ cur (names_by_oper_sorted d op I)) as N. split; auto.
+  unfold vm_dnext. apply (or_null_nonempty (names_by_oper d op)); auto.
+  intros y E. rewrite E in N. now apply nearest_In in N.
+Qed.
+
+(* The same for the members of a group or location, as long as it still exists. *)
+Theorem vm_dnextm_nearest_while_listed : forall d op name fwd cur l, dir_inv d ->
+  set_by_oper d op name = Some l -> ~ In EmptyString l ->
+  exists r, vm_dnextm d op name fwd cur = to_result r /\ nearest fwd l cur r.
+Proof.
+  intros d op name fwd cur l I G NE. exists (steps fwd l cur).
+  assert (S : sorted l).
+  { destruct (directory_consistent d I) as [_ [_ [_ [_ [_ [A [B _]]]]]]].
+    destruct op; cbn [set_by_oper] in G; [discriminate|now apply (A name l)|now apply (B name l)]. }
+  pose proof (steps_nearest fwd l cur S) as N. split; auto.
+  unfold vm_dnextm. rewrite G. apply (or_null_nonempty l); auto.
+  intros y E. rewrite E in N. now apply nearest_In in N.
+Qed.
+
+(* Pinned tree: once the group (location) being iterated has lost its last light,
+   the next step does not end the iteration but faults (AttributeError on None). *)
+Definition vanish_before : list step :=
+  [Discover [("a", ("g", "l")); ("b", ("h", "l"))] 0].
+Definition vanish_step : step := Discover [("a", ("h", "l"))] 10.
+
+Theorem member_iteration_group_vanished_refuted :
+  exists h s g cur,
+    vm_discm (run h) OGroup g true = DName cur /\
+    get_group_lights (run (h ++ [s])) g = None /\
+    vm_dnextm (run (h ++ [s])) OGroup g true cur = DFault.
+Proof.
+  exists vanish_before, vanish_step, "g", "a". repeat split; vm_compute; reflexivity.
+Qed.
+
+(* ================= CPython's binary search returns the same positions ================= *)
+Lemma bisect_left_le l x : (bisect_left l x <= length l)%nat.
+Proof. induction l as [|y t IH]; cbn; [lia|]. destruct (str_ltb y x); cbn; lia. Qed.
+
+Lemma bisect_left_below : forall l x i, (i < bisect_left l x)%nat -> str_ltb (nth i l "") x = true.
+Proof.
+  induction l as [|y t IH]; intros x i H; cbn [bisect_left] in H; [lia|].
+  destruct (str_ltb y x) eqn:E; [|lia]. destruct i as [|i]; cbn [nth]; auto. apply IH. lia.
+Qed.
+
+Lemma bisect_left_above : forall l x i, sorted l -> (bisect_left l x <= i < length l)%nat ->
+  str_ltb (nth i l "") x = false.
+Proof.
+  induction l as [|y t IH]; intros x i S H; cbn [bisect_left length] in H; [lia|].
+  pose proof S as S'. apply sorted_cons_iff in S' as [St F]. rewrite Forall_forall in F.
+  destruct (str_ltb y x) eqn:E.
+  - destruct i as [|i]; [lia|]. cbn [nth]. apply IH; auto. lia.
+  - destruct i as [|i]; cbn [nth]; auto.
+    destruct (str_ltb (nth i t "") x) eqn:E2; auto.
+    assert (Hin : In (nth i t "") t) by (apply nth_In; lia).
+    pose proof (str_ltb_trans _ _ _ (F _ Hin) E2). congruence.
+Qed.
+
+Lemma bisect_right_le l x : (bisect_right l x <= length l)%nat.
+Proof. induction l as [|y t IH]; cbn; [lia|]. destruct (str_ltb x y); cbn; lia. Qed.
+
+Lemma bisect_right_below : forall l x i, (i < bisect_right l x)%nat -> str_ltb x (nth i l "") = false.
+Proof.
+  induction l as [|y t IH]; intros x i H; cbn [bisect_right] in H; [lia|].
+  destruct (str_ltb x y) eqn:E; [lia|]. destruct i as [|i]; cbn [nth]; auto. apply IH. lia.
+Qed.
+
+Lemma bisect_right_above : forall l x i, sorted l -> (bisect_right l x <= i < length l)%nat ->
+  str_ltb x (nth i l "") = true.
+Proof.
+  induction l as [|y t IH]; intros x i S H; cbn [bisect_right length] in H; [lia|].
+  pose proof S as S'. apply sorted_cons_iff in S' as [St F]. rewrite Forall_forall in F.
+  destruct (str_ltb x y) eqn:E.
+  - destruct i as [|i]; cbn [nth]; auto.
+    assert (Hin : In (nth i t "") t) by (apply nth_In; lia).
+    apply (str_ltb_trans x y _); auto. apply F; auto.
+  - destruct i as [|i]; [lia|]. cbn [nth]. apply IH; auto. lia.
+Qed.
+
+Lemma div2_mid lo hi : (lo < hi)%nat -> (lo <= Nat.div2 (lo + hi) < hi)%nat.
+Proof.
+  intros H. pose proof (Nat.div2_odd (lo + hi)) as E.
+  destruct (Nat.odd (lo + hi)); cbn [Nat.b2n] in E; lia.
+Qed.
+
+Lemma bisect_left_loop_ok l x : sorted l -> forall fuel lo hi,
+  (lo <= bisect_left l x <= hi)%nat -> (hi <= length l)%nat -> (hi - lo < fuel)%nat ->
+  bisect_left_loop fuel l x lo hi = bisect_left l x.
+Proof.
+  intros S. induction fuel as [|f IH]; intros lo hi B Hl Hf; [lia|].
+  cbn [bisect_left_loop]. destruct (Nat.ltb lo hi) eqn:E.
+  - apply Nat.ltb_lt in E. pose proof (div2_mid lo hi E) as M.
+    set (mid := Nat.div2 (lo + hi)) in *.
+    destruct (str_ltb (nth mid l "") x) eqn:C.
+    + assert (mid < bisect_left l x)%nat.
+      { destruct (Nat.lt_ge_cases mid (bisect_left l x)) as [|G]; auto.
+        rewrite (bisect_left_above l x mid S) in C; [discriminate|lia]. }
+      apply IH; lia.
+    + assert (bisect_left l x <= mid)%nat.
+      { destruct (Nat.lt_ge_cases mid (bisect_left l x)) as [G|]; auto.
+        rewrite (bisect_left_below l x mid G) in C. discriminate. }
+      apply IH; lia.
+  - apply Nat.ltb_ge in E. lia.
+Qed.
+
+Theorem bisect_left_bin_correct : forall l x, sorted l -> bisect_left_bin l x = bisect_left l x.
+Proof.
+  intros l x S. unfold bisect_left_bin. pose proof (bisect_left_le l x).
+  apply bisect_left_loop_ok; auto; lia.
+Qed.
+
+Lemma bisect_right_loop_ok l x : sorted l -> forall fuel lo hi,
+  (lo <= bisect_right l x <= hi)%nat -> (hi <= length l)%nat -> (hi - lo < fuel)%nat ->
+  bisect_right_loop fuel l x lo hi = bisect_right l x.
+Proof.
+  intros S. induction fuel as [|f IH]; intros lo hi B Hl Hf; [lia|].
+  cbn [bisect_right_loop]. destruct (Nat.ltb lo hi) eqn:E.
+  - apply Nat.ltb_lt in E. pose proof (div2_mid lo hi E) as M.
+    set (mid := Nat.div2 (lo + hi)) in *.
+    destruct (str_ltb x (nth mid l "")) eqn:C.
+    + assert (bisect_right l x <= mid)%nat.
+      { destruct (Nat.lt_ge_cases mid (bisect_right l x)) as [G|]; auto.
+        rewrite (bisect_right_below l x mid G) in C. discriminate. }
+      apply IH; lia.
+    + assert (mid < bisect_right l x)%nat.
+      { destruct (Nat.lt_ge_cases mid (bisect_right l x)) as [|G]; auto.
+        rewrite (bisect_right_above l x mid S) in C; [discriminate|lia]. }
+      apply IH; lia.
+  - apply Nat.ltb_ge in E. lia.
+Qed.
+
+Theorem bisect_right_bin_correct : forall l x, sorted l -> bisect_right_bin l x = bisect_right l x.
+Proof.
+  intros l x S. unfold bisect_right_bin. pose proof (bisect_right_le l x).
+  apply bisect_right_loop_ok; auto; lia.
+Qed.
+
+(* add / remove / has, as the property needs them *)
+Theorem add_remove_has : forall l x, sorted l ->
+  sorted (sl_add l x) /\ (forall y, In y (sl_add l x) <-> y = x \/ In y l) /\
+  sorted (sl_remove l x) /\ (forall y, In y (sl_remove l x) <-> In y l /\ y <> x) /\
+  (sl_has l x = true <-> In x l).
+Proof.
+  intros l x S. rewrite sl_add_ins, sl_remove_del.
+  split; [now apply ins_sorted|]. split; [intros y; apply ins_In|].
+  split; [now apply del_sorted|]. split; [intros y; now apply del_In|]. now apply sl_has_In.
+Qed.
+
+(* ================= non-vacuity ================= *)
+(* two lights appear; "a" moves to another group while "b" is not seen (it stays listed,
+   under the group it last reported); "b" expires; "b" reappears elsewhere; a failed
+   discovery; finally "a" expires. *)
+Definition ex_history : list step :=
+  [ Discover [("a", ("g1", "l1")); ("b", ("g1", "l1"))] 0;
+    Discover [("a", ("g2", "l1"))] 100;
+    Expire 150 120;
+    Discover [("b", ("g2", "l2"))] 200;
+    FailedDiscover;
+    Expire 300 120 ].
+
+Example ex_after_move :
+  let d := run (firstn 2 ex_history) in
+  get_light_names d = ["a"; "b"] /\ get_group_names d = ["g1"; "g2"] /\
+  get_group_lights d "g1" = Some ["b"] /\ get_group_lights d "g2" = Some ["a"] /\
+  get_location_lights d "l1" = Some ["a"; "b"].
+Proof. vm_compute. repeat split. Qed.
+
+Example ex_after_vanish :
+  let d := run (firstn 3 ex_history) in
+  get_light_names d = ["a"] /\ get_group_names d = ["g2"] /\ get_group_lights d "g1" = None /\
+  get_location_lights d "l1" = Some ["a"] /\ get_light_count d = 1.
+Proof. vm_compute. repeat split. Qed.
+
+Example ex_after_reappear :
+  let d := run (firstn 5 ex_history) in
+  get_light_names d = ["a"; "b"] /\ get_group_lights d "g2" = Some ["a"; "b"] /\
+  get_location_names d = ["l1"; "l2"] /\ get_light d "b" = Some (mkLight "g2" "l2" 200) /\
+  get_successful_discovers d = 3 /\ get_failed_discovers d = 1.
+Proof. vm_compute. repeat split. Qed.
+
+Example ex_final :
+  let d := run ex_history in
+  get_light_names d = ["b"] /\ get_group_lights d "g2" = Some ["b"] /\
+  get_location_names d = ["l2"] /\ dir_invb d = true.
+Proof. vm_compute. repeat split. Qed.
+
+(* a renamed light is a new light: the old name stays known until it expires *)
+Example ex_rename :
+  let d := run [Discover [("old", ("g", "l"))] 0; Discover [("new", ("g", "l"))] 10] in
+  get_light_names d = ["new"; "old"] /\ get_group_lights d "g" = Some ["new"; "old"].
+Proof. vm_compute. repeat split. Qed.
+
+(* iteration a, b, c, d, e: while at "a", "a" and "b" are removed; while at "c", "e" is removed *)
+Example ex_iteration :
+  iterate 6 (fun i => match i with 1%nat => ["a"; "b"] | 2%nat => ["e"] | _ => [] end) ["a"; "b"; "c"; "d"; "e"]
+  = Some ([(["a"; "b"; "c"; "d"; "e"], "a"); (["c"; "d"; "e"], "c"); (["c"; "d"], "d")], ["c"; "d"]).
+Proof. vm_compute. reflexivity. Qed.
+
+Example ex_order : str_ltb "Lamp" "lamp" = true /\ str_ltb "a" "ab" = true /\ str_ltb "table-10" "table-2" = true.
+Proof. vm_compute. repeat split. Qed.
